@@ -131,6 +131,8 @@ Q_C14 == {[BaseQ EXCEPT !.items = <<E(P(Fa(1))), E(NRx)>>],
           [BaseQ EXCEPT !.items = <<E(Fa(1)), <<"unnest", <<"rep", P(Fa(2))>>>> >>]}
 \* for ragged tables: no sort key / numeric aggregate over a field that may be absent (None keys raise inside sorted(): I2)
 Q_C14rag == {qq \in Q_C14 : (\A k \in 1..Len(qq.order) : qq.order[k] # Fa(2) /\ qq.order[k] # P(Fa(2))) /\ (\A k \in 1..Len(qq.items) : qq.items[k][1] # "agg" \/ qq.items[k][2] # "MAX")}
+\* for the JavaScript port: without the query whose failure is Python's None + str TypeError (null + "x" is "nullx" in JS)
+Q_C14js == {qq \in Q_C14 : qq.items # <<E(<<"cat", Fa(1), Fa(3)>>)>>}
 Q_C14text == {[BaseQ EXCEPT !.items = <<E(Fa(1))>>, !.where = <<"eq", Fa(1), L(97)>>, !.mistake = "where_assign"],
               [BaseQ EXCEPT !.items = <<E(Fa(1))>>, !.mistake = "two_selects"],
               [BaseQ EXCEPT !.items = <<E(Fa(1))>>, !.hastop = TRUE, !.top = 1, !.mistake = "bad_limit"],
@@ -155,12 +157,33 @@ Q_C14join == {[BaseQ EXCEPT !.items = <<E(Fa(1)), E(Fb(1))>>, !.join = j, !.jkey
 D(c)  == Str(<<c>>)                   \* one-digit numeric strings "1".."3"
 N15   == Str(<<49, 46, 53>>)          \* "1.5"
 Nums  == {D(49), D(50), D(51), N15}
-R_num == {<<k, v>> : k \in V2, v \in Nums}       \* key column, numeric column
+R_num  == {<<k, v>> : k \in V2, v \in Nums}                       \* key column, numeric-string column
+R_numi == {<<k, v>> : k \in V2, v \in {IntV(1), IntV(2), IntV(3)}}  \* int column
+R_numf == {<<k, v>> : k \in V2, v \in {<<"q", 1, 2>>, <<"q", 3, 2>>, <<"q", 5, 2>>}}   \* float column
+R_numN == {<<k, v, w>> : k \in V2, v \in {D(49), D(50)}, w \in {S(120), None}}       \* third column constant-or-None (D7)
 AggFs == {"COUNT", "MIN", "MAX", "SUM", "AVG", "VARIANCE", "MEDIAN", "ARRAY_AGG", "ANY_VALUE"}
-ItemsAgg == {Agg(f, Fa(2)) : f \in AggFs} \cup {Agg("COUNT", <<"int", 1>>), Agg("SUM", <<"mul", <<"num", Fa(2)>>, <<"int", 2>> >>), E(Fa(1)), E(L(120)), E(Fa(2))}
-Q_C03 == {[BaseQ EXCEPT !.items = its, !.hasgroup = g # <<>>, !.group = g, !.where = w, !.hastop = ht, !.top = 1] :
-            its \in SeqsBetween(ItemsAgg, 1, 2), g \in {<<>>, <<Fa(1)>>, <<Fa(1), Fa(2)>>}, w \in {TRUEx, <<"nrodd">>}, ht \in BOOLEAN}
+AggItems  == {Agg(f, Fa(2)) : f \in AggFs} \cup {Agg("COUNT", <<"int", 1>>), Agg("SUM", <<"mul", <<"num", Fa(2)>>, <<"int", 2>> >>)}
+ItemsAgg  == AggItems \cup {E(Fa(1)), E(L(120)), E(Fa(2))}
+GroupSet  == {<<>>, <<Fa(1)>>, <<Fa(1), Fa(2)>>}
+Q_C03one == {[BaseQ EXCEPT !.items = <<it>>, !.hasgroup = g # <<>>, !.group = g, !.where = w, !.hastop = ht, !.top = 1] :
+               it \in ItemsAgg, g \in GroupSet, w \in {TRUEx, <<"nrodd">>}, ht \in BOOLEAN}
+\* for the JavaScript port: without int("1.5") (raises in Python, parseInt gives 1)
+Q_C03js == {qq \in Q_C03one : qq.items[1] # Agg("SUM", <<"mul", <<"num", Fa(2)>>, <<"int", 2>> >>)}
+Q_C03two == {[BaseQ EXCEPT !.items = its, !.hasgroup = g # <<>>, !.group = g] :
+               its \in SeqsBetween(ItemsAgg, 2, 2), g \in GroupSet}
+\* int / float columns: the numeric-string conversion Num(..) does not apply
+AggItemsNum == {Agg(f, Fa(2)) : f \in AggFs} \cup {Agg("SUM", <<"mul", Fa(2), <<"int", 2>> >>)}
+Q_C03num == {[BaseQ EXCEPT !.items = <<it, E(Fa(1))>>, !.hasgroup = g # <<>>, !.group = g] : it \in AggItemsNum, g \in {<<>>, <<Fa(1)>>}}
+Q_C03med == {[BaseQ EXCEPT !.items = <<Agg(f, Fa(2)), E(Fa(1))>>, !.hasgroup = g # <<>>, !.group = g] :
+               f \in {"MEDIAN", "VARIANCE", "AVG", "MIN", "SUM"}, g \in {<<>>, <<Fa(1)>>}}
 Q_C03bad == {[BaseQ EXCEPT !.items = <<Agg("COUNT", <<"int", 1>>)>>, !.order = <<Fa(1)>>],
              [BaseQ EXCEPT !.items = <<Agg("MAX", Fa(2))>>, !.distinct = "uniq"],
              [BaseQ EXCEPT !.items = <<Agg("SUM", Fa(2)), E(Fa(1))>>, !.hasgroup = TRUE, !.group = <<Fa(1)>>, !.order = <<Fa(1)>>]}
+\* lower-case min / max / sum with several arguments or an iterable keep their Python meaning (no aggregation)
+Q_C03builtin == {[BaseQ EXCEPT !.items = <<it, E(Fa(1))>>, !.where = w] :
+                   it \in {E(<<"bmin", Fa(1), Fa(2)>>), E(<<"bmax", Fa(1), Fa(2)>>), E(<<"bmaxl", Fa(2), Fa(1)>>), E(<<"bsum", <<"num", Fa(2)>>, <<"NR">> >>),
+                           E(<<"bmin", <<"num", Fa(2)>>, <<"NR">> >>)},
+                   w \in {TRUEx, <<"nrodd">>}}
+Q_C03none == {[BaseQ EXCEPT !.items = <<E(Fa(3)), Agg("COUNT", <<"int", 1>>)>>, !.hasgroup = TRUE, !.group = <<Fa(1)>>],
+              [BaseQ EXCEPT !.items = <<E(Fa(3)), Agg("MAX", Fa(2))>>]}
 =============================================================================
